@@ -133,7 +133,7 @@ def leaves(t: Term, truthy=None) -> List[Term]:
         elif x[0] in ("and", "or"):
             for y in x[1]:
                 walk(y)
-        elif x[0] == "ifexp":
+        elif x[0] in ("ifexp", "phi"):
             walk(x[1]); walk(x[2]); walk(x[3])
         elif x[0] == "bag" and all(not e[3] for e in x[1]):
             for e in x[1]:
@@ -161,7 +161,7 @@ def eval_leaves(t: Term, assign: Dict[Term, bool], truthy=None) -> bool:
         return all(eval_leaves(x, assign, truthy) for x in t[1])
     if k == "or":
         return any(eval_leaves(x, assign, truthy) for x in t[1])
-    if k == "ifexp":
+    if k in ("ifexp", "phi"):
         return eval_leaves(t[2], assign, truthy) if eval_leaves(t[1], assign, truthy) else eval_leaves(t[3], assign, truthy)
     if k == "bag" and all(not e[3] for e in t[1]):
         # truthiness of a collection built from guarded elements: non-empty iff some guard holds
